@@ -80,7 +80,9 @@ theorem mode_skipDefault {T : FieldTable} {l : Leaf} (h : mode T l = .skipDefaul
     simp only [] at h
     split at h
     · cases h
-    · split at h <;> cases h
+    · split at h
+      · cases h
+      · split at h <;> cases h
   | some s =>
     rw [hf] at h
     simp only [] at h
@@ -106,6 +108,7 @@ theorem strip_restoreDefaults (T : FieldTable) (l : Leaf)
   | skipRestored => rfl
   | registry ks => rfl
   | utxo => rfl
+  | unmodelled => rfl
 
 theorem strip_restoreDefaults_list (T : FieldTable) (tx : List Leaf)
     (hT : ∀ l ∈ tx, ∀ s ∈ l.path, T.skip s = true → T.restored s = true ∨ T.zeroed s = true) :
@@ -214,6 +217,7 @@ theorem compressLeaf_ok (c c' : C) (l : Leaf) (cl : CLeaf) (hg : L.Good c)
     intro c'' hs
     have := hinfo hm
     simp [decompressLeaf, restoreDefaults, hm, hs.2.2, this]
+  | unmodelled => rw [hm] at h; cases h
   | registry ks =>
     rw [hm] at h
     simp only [] at h
